@@ -70,7 +70,7 @@ OUT_KINDS = ['p2pkh', 'p2sh', 'claim', 'update', 'support', 'support_data', 'pur
 
 REQUIRED_HITS = (
     ['B2.flow_object_vs_raw_checked', 'flow.exact', 'flow.dust_surplus', 'flow.change', 'B1.checked', 'B2.fields_checked', 'B2.reserialize_checked', 'B3.built_id_checked', 'B3.parsed_id_checked',
-     'B3.hash_checked', 'B4.checked', 'S.B2.fields_checked', 'S.B3.id_checked', 'S.B3.sans_segwit_checked',
+     'B3.hash_checked', 'B4.checked', 'S.B2.fields_checked', 'S.B3.id_checked', 'S.B3.sans_segwit_checked', 'S.B2.raw_of_parsed_checked', 'M.raw_of_parsed_checked',
      'M.fixture_checked', 'M.known_txid_checked', 'M.segwit_variant_checked', 'build.incremental', 'build.late_fields',
      'payload.claim_object', 'payload.support_object', 'payload.raw_bytes', 'witness.nonempty', 'witness.all_empty']
     + [f'in.{k}' for k in IN_KINDS] + [f'out.{k}' for k in OUT_KINDS] + ['out.tail.sh', 'out.tail.pkh']
@@ -999,8 +999,13 @@ def check_segwit(rec, spec, model, expected, exp_id, exp_hash, segwit_raw, vcase
     rec.log('segwit.flag_is_1' if parsed.is_segwit_flag == 1 else 'segwit.flag_not_1')
     flat = [it for st in model.witnesses for it in st]
     rec.log('segwit.witnesses_flat_match' if list(parsed.witnesses) == flat else 'segwit.witnesses_flat_differ')
+    rec.hit('S.B2.raw_of_parsed_checked')
     if parsed.raw != segwit_raw:
-        rec.log('segwit.raw_not_kept')
+        # "parsing the bytes back ... re-serialises to identical bytes": what a parsed transaction hands out as .raw (and what the wallet
+        # database stores) is the bytes it was parsed from; for BIP144 bytes that includes marker, flag and witness stacks
+        rec.violation('C05/S-B2/raw-of-parsed-transaction-differs-from-the-bytes-parsed/' + ('witness-stripped' if parsed.raw == expected else 'other'),
+                      f'Transaction(BIP144 bytes).raw has {len(parsed.raw)} bytes, the bytes parsed had {len(segwit_raw)}; model: {summary(spec)}',
+                      {'bip144_raw': segwit_raw, 'raw': parsed.raw, 'model': spec}, case=vcase)
     parsed._reset()
     rec.log('segwit.after_reset_raw_is_legacy' if parsed.raw == expected else
             'segwit.after_reset_raw_is_bip144' if parsed.raw == segwit_raw else 'segwit.after_reset_raw_other')
@@ -1048,6 +1053,10 @@ def run_fixture(rec, fx, rng, seed):
         if pid != R.txid(ref_tx) or (fx.get('known_txid') and pid != fx['known_txid']):
             rec.violation('C05/M/parsed-txid-mismatch', f'Transaction(main-net {fx["name"]}).id = {pid}, known/reference id '
                           f'{fx.get("known_txid") or R.txid(ref_tx)}', {'raw': raw, 'got': pid}, case=one)
+        rec.hit('M.raw_of_parsed_checked')
+        if parsed.raw != raw:
+            rec.violation('C05/M-B2/raw-of-parsed-transaction-differs-from-the-bytes-parsed', f'main-net {fx["name"]}: Transaction(raw).raw has '
+                          f'{len(parsed.raw)} bytes, the main-net bytes {len(raw)}', {'raw': raw, 'got': parsed.raw}, case=one)
         parsed._reset()
         if parsed.raw != raw:
             lay = []
